@@ -260,6 +260,9 @@ func c20Expand(raw json.RawMessage) (any, error) {
 		}
 		c.Key = explore.Key(ctx) + "|" + strings.Join(sortedMap(model), ",")
 		c.Outcomes = []string{fmt.Sprint(len(model))}
+		if len(hist) == 1 && k%25 == 3 {
+			c.Sample = map[string]any{"history": hs, "model": sortedMap(model), "accessor_results_compared": c.Probes}
+		}
 		ctx.Destroy()
 		kids = append(kids, c)
 	}
